@@ -1,0 +1,16 @@
+//go:build verif
+
+// Contracts for package rsync, checked by /verif/govc. Comments only.
+
+package rsync
+
+//@ func (*rsync.SumHead).ReadFrom
+//@   modifies sh.ChecksumCount, sh.BlockLength, sh.ChecksumLength, sh.RemainderLength, rsyncwire.CountingReader.BytesRead
+//@   ensures err == nil ==> sh.ChecksumCount >= 0
+//@   ensures err == nil ==> 0 <= sh.BlockLength && sh.BlockLength <= 536870912
+//@   ensures err == nil ==> 0 <= sh.ChecksumLength && sh.ChecksumLength <= 16
+//@   ensures err == nil ==> 0 <= sh.RemainderLength && sh.RemainderLength <= sh.BlockLength
+//@   ensures [bl-positive] err == nil && sh.ChecksumCount > 0 ==> sh.BlockLength >= 1
+
+//@ func (*rsync.SumHead).WriteTo
+//@   modifies rsyncwire.CountingWriter.BytesWritten
